@@ -1353,6 +1353,24 @@ impl<'t, 'c> Gen<'t, 'c> {
         }
     }
 
+    /// [poison; block statement whose HEADER fails]: the condition of an IF / ELSEIF, a CASE value, the condition of a
+    /// top-tested loop. After the repair (Z% = 2) the condition holds 5: RESUME re-executes the block statement, which then
+    /// takes the arm with the failing condition (IF / CASE) or runs / skips the loop.
+    fn failing_header(&mut self, cv: &ControlVars) -> Vec<Stmt> {
+        let quot = || b(BinOp::Div, lit_i(10), ld(&cv.z));
+        let poison = Stmt::Assign(cv.z.clone(), lit_i(0));
+        let (e1, e2, c1) = (self.tok("e"), self.tok("e"), self.tok("c"));
+        let st = match self.t.choose(6) {
+            0 => Stmt::If { arms: vec![(b(BinOp::Ge, quot(), lit_i(1)), vec![c1]), (lit_i(-1), vec![e1])], else_: Some(vec![e2]) },
+            1 => Stmt::If { arms: vec![(lit_i(0), vec![e1]), (b(BinOp::Ge, quot(), lit_i(1)), vec![c1])], else_: Some(vec![e2]) },
+            2 => Stmt::If { arms: vec![(lit_i(0), vec![e1]), (b(BinOp::Eq, quot(), lit_i(1)), vec![e2]), (b(BinOp::Eq, quot(), lit_i(5)), vec![c1])], else_: None },
+            3 => Stmt::Select { subject: lit_i(5), cases: vec![(vec![CaseItem::Val(lit_i(1))], vec![e1]), (vec![CaseItem::Val(quot())], vec![c1])], else_: Some(vec![e2]) },
+            4 => Stmt::Select { subject: lit_i(5), cases: vec![(vec![CaseItem::Val(lit_i(1)), CaseItem::Is(BinOp::Lt, quot())], vec![e1]), (vec![CaseItem::Val(lit_i(5))], vec![c1])], else_: Some(vec![e2]) },
+            _ => Stmt::Do { kind: DoKind::TopUntil, cond: b(BinOp::Ge, quot(), lit_i(1)), body: vec![e1, Stmt::Assign(cv.z.clone(), lit_i(1))] },
+        };
+        vec![poison, st]
+    }
+
     fn repairs(&self, cv: &ControlVars) -> Vec<Stmt> {
         vec![Stmt::Assign(cv.z.clone(), lit_i(2)), Stmt::Assign(cv.big.clone(), lit_i(12)), Stmt::Assign(cv.idx.clone(), lit_i(1)), Stmt::Assign(cv.n.clone(), lit_i(2))]
     }
@@ -1667,7 +1685,10 @@ impl<'t, 'c> Gen<'t, 'c> {
                     if random_file && self.t.chance(1, 6) {
                         kind = 7;
                     }
-                    let f = self.failing(&cv, kind);
+                    // now and then the failing piece is the header of a block statement (the statements do not say where
+                    // RESUME NEXT continues then: only under a handler that ends in RESUME / RESUME label, or without handler)
+                    let header_ok = active.map(|h| handler_resume[h] != 0).unwrap_or(true);
+                    let f = if header_ok && self.t.chance(1, 4) { self.failing_header(&cv) } else { self.failing(&cv, kind) };
                     let e = self.enclose(f);
                     main.extend(e);
                     main.push(self.tok("c"));
